@@ -4,7 +4,7 @@
    Planning and execution are covered by the crash-mode differential run only (see the claim text). *)
 From Coq Require Import List NArith Bool Arith.
 Import ListNotations.
-From BWGrammar Require Import Grammar GrammarProofs Hooks HooksProofs.
+From BWGrammar Require Import Grammar GrammarProofs Hooks HooksProofs LLk LLkProofs.
 From BWGrammar.Gen Require Import GrammarGen.
 From BWEngine Require Import Chan ChanProofs.
 From Coq.Strings Require Import Byte.
@@ -50,6 +50,32 @@ Theorem C08_undrained_leak_refuted :
   exists s, steps nat 2 false (init nat [1; 2; 3; 4]%nat 0) s /\ terminal nat 2 false s /\ closed nat s = false.
 Proof. exact undrained_leak_refuted. Qed.
 Print Assumptions C08_undrained_leak_refuted.
+
+(* the token source of the parser (llk.go): `&l.tkns[0]` in Current / CanAccept / Consume and `&l.tkns[j]` in Peek index
+   the look-ahead window.  For every look-ahead k, token list and run of Consume attempts the window holds exactly k+1
+   tokens: none of these index expressions can be out of range, however long or short the statement is. *)
+Theorem C08_llk_no_index_panic : forall (Tok : Type) (pad : Tok) (kind : Tok -> N) toks k tys,
+  let l := fst (consumes Tok pad kind (new_llk Tok pad toks k) tys) in
+  la Tok l = k /\ length (win Tok l) = S k /\ current Tok l <> None /\
+  (forall j, (1 <= j <= k)%nat -> peek Tok l j <> None).
+Proof.
+  intros Tok pad kind toks k tys l.
+  destruct (new_R Tok pad toks k) as [HR Hk].
+  destruct (consumes_spec Tok pad kind tys _ _ HR) as [_ HR'].
+  fold l in HR'.
+  assert (Hla : la Tok l = k).
+  { clear HR'. subst l. revert HR Hk. generalize (new_llk Tok pad toks k) as l0. generalize toks as ts.
+    induction tys as [|ty r IH]; intros ts l0 HR0 Hk0; cbn [consumes fst]; [exact Hk0|].
+    pose proof (consume_spec Tok pad kind l0 ts ty HR0) as Hc.
+    destruct (consume_tok Tok pad kind l0 ty) as [l1 b]. destruct Hc as [_ [HR1 Hl1]].
+    specialize (IH _ l1 HR1 (eq_trans Hl1 Hk0)).
+    destruct (consumes Tok pad kind l1 r) as [l2 bs]. exact IH. }
+  split; [exact Hla|]. split; [destruct HR' as [Hlen _]; rewrite Hlen, Hla; reflexivity|].
+  split.
+  - rewrite (current_spec Tok pad l _ HR'). discriminate.
+  - intros j Hj. rewrite (peek_spec Tok pad l _ j HR') by (rewrite Hla; exact Hj). discriminate.
+Qed.
+Print Assumptions C08_llk_no_index_panic.
 
 (* front end composed: for EVERY byte string, the lexer model terminates (run loop reaches nil: the channel is closed),
    emits exactly one terminal token (EOF or Error) in last position, and the parser model over the emitted token kinds
